@@ -231,7 +231,13 @@ func renderScript(vocab []lineJ, script []int, arch string, rng *rand.Rand, with
 // archiveText renders the initial tree as the txtar part of the script.  With dup
 // the first file is named twice (first with other contents: the later entry wins
 // unless RequireUniqueNames).
-func archiveText(init []treeJ, dup bool) string {
+func archiveText(init []treeJ, dup bool) string { return archiveTextSpelled(init, dup, "") }
+
+// dupSpellings: what the name of the duplicate (first) entry carries behind the name proper.  Entry names are
+// expanded like script words, and during setup these expand to nothing: every spelling names the same file.
+var dupSpellings = []string{"", "$exe", "${exe}"}
+
+func archiveTextSpelled(init []treeJ, dup bool, spell string) string {
 	type f struct{ name, data string }
 	var fs []f
 	for _, t := range init {
@@ -242,7 +248,7 @@ func archiveText(init []treeJ, dup bool) string {
 	sort.Slice(fs, func(i, j int) bool { return fs[i].name < fs[j].name })
 	var sb strings.Builder
 	if dup && len(fs) > 0 {
-		fmt.Fprintf(&sb, "-- %s --\nfirst version\n", fs[0].name)
+		fmt.Fprintf(&sb, "-- %s%s --\nfirst version\n", fs[0].name, spell)
 	}
 	for _, x := range fs {
 		fmt.Fprintf(&sb, "-- %s --\n%s", x.name, x.data)
